@@ -26,7 +26,7 @@ import multiprocessing as mp
 
 tier = sys.argv[1] if len(sys.argv) > 1 else 'quick'
 seed = int(sys.argv[2]) if len(sys.argv) > 2 else 0
-NCASES = {'quick': 60, 'thorough': 2000}.get(tier, 60)
+NCASES = {'quick': 400, 'thorough': 4000}.get(tier, 400)
 CASE_TIMEOUT = 120
 SNAPS = (0.1, 1.e-3)
 BIG = 1.e50
@@ -120,7 +120,7 @@ def gen_case(rnd, idx):
                     s = bot + rnd.uniform(0.05, 0.9) * snap           # surface block thinner than layer_snap
                 else:
                     s = bot + rnd.uniform(0.35, 1.0) * (top - bot)    # at least 0.35 m (> 3 * layer_snap) thick
-                    if m == nz - 1: s = max(s, bot + 0.35 * (top - bot))
+                    if m == nz - 1: s = top                          # the bottom layer stays complete
                 surf.append(s)
         if mode == 'thin' and not any(is_thin(s, ztop, snap) for s in surf): mode = 'sloping'
     # what the grid can tell about the top of the model: 'full' = some column fills the top layer; 'partial' = the
@@ -131,7 +131,9 @@ def gen_case(rnd, idx):
     bcs = ['none', 'none', 'none', 'bottom-huge', 'side-max-huge', 'side-max-zero', 'side-min-huge']
     if atm == 2: bcs += ['top-huge', 'top-zero', 'top1-huge']
     bc = rnd.choice(bcs)
-    return dict(case=idx, nx=nx, ny=ny, nz=nz, dx=dx, dy=dy, dz=dz, origin=origin, angle=angle, aligned=aligned,
+    # some column consists of the bottom layer only (its surface is the top of the bottom layer)
+    onelayer = surf is not None and any(s <= ztop[nz - 1] for s in surf)
+    return dict(case=idx, onelayer=onelayer, nx=nx, ny=ny, nz=nz, dx=dx, dy=dy, dz=dz, origin=origin, angle=angle, aligned=aligned,
                 atmos_type=atm, convention=conv, rectgeo_convention=rconv, layer_snap=snap, surface_mode=mode,
                 surface=surf, top=top, bc=bc, bc_dirn=rnd.choice([1, 2]), bc_centres=rnd.random() < 0.5,
                 remove_inactive=rnd.random() < 0.5, give_origin_block=rnd.random() < 0.2)
@@ -443,14 +445,14 @@ def contract_regenerate(L, geo, blockmap, grid, bcnames, tol):
     if n1 != n2:
         return False, 'block names differ: only in original %r, only in regenerated %r' % (sorted(n1 - n2)[:3], sorted(n2 - n1)[:3])
     ev, dsz = tol['eps_v'], 2. * (tol['surface'] + tol['z'])
-    areas = {}
+    hmin = min(L.p['dz'] + [L.min_surface_block()])
     for b in grid.blocklist:
         if b.name in bc: continue
         b2 = grid2.block[b.name]
         tv = 8. * ev * abs(b.volume) + 1.e-9 * abs(b.volume)
         if 0 < b.volume < 1.e25:
-            # height error of a surface block times its area (area unknown here: bound it by volume / smallest layer)
-            tv += dsz * b.volume / min(L.p['dz'] + [L.min_surface_block()]) if tol['eps_c'] > 1e-12 else 0.
+            # height error of a surface block times its area (area <= volume / smallest block height)
+            tv += dsz * b.volume / hmin
         if not (abs(b.volume - b2.volume) <= tv):
             return False, 'block %r volume %r, original %r' % (b.name, float(b2.volume), float(b.volume))
         if (b.centre is None) != (b2.centre is None):
@@ -479,17 +481,16 @@ def contract_regenerate(L, geo, blockmap, grid, bcnames, tol):
             return False, 'connection %r direction %r, original %r' % (nm, d.direction, c.direction)
         dd = list(d.distance) if same else list(d.distance)[::-1]
         for x, y in zip(c.distance, dd):
-            t = 4. * ev * abs(x) + 1.e-9 * abs(x) + tol['floor'] * 1e-3 + (dsz if c.direction == 3 and tol['eps_c'] > 1e-12 else 0.)
+            t = 4. * ev * abs(x) + 1.e-9 * abs(x) + (dsz if c.direction == 3 else 0.)
             if not (abs(x - y) <= t):
                 return False, 'connection %r distances %r, original %r' % (nm, [float(v) for v in dd], [float(v) for v in c.distance])
         ta = 8. * ev * abs(c.area) + 1.e-9 * abs(c.area)
-        if c.direction != 3 and tol['eps_c'] > 1e-12:
-            ta += dsz * c.area / min(L.p['dz'] + [L.min_surface_block()])
+        if c.direction != 3: ta += dsz * c.area / hmin
         if not (abs(c.area - d.area) <= ta):
             return False, 'connection %r area %r, original %r' % (nm, float(d.area), float(c.area))
         dc = d.dircos if same else -d.dircos       # the gravity cosine changes sign with the block order
-        # file field is %10.7f; a horizontal connection between blocks of different height has a small cosine
-        tdc = 1.e-9 if tol['eps_c'] <= 1e-12 else 2.e-7 + 4. * (dsz + tol['z']) / max(1e-300, sum(c.distance))
+        # a horizontal connection between blocks of different height has a small cosine (file field: %10.7f)
+        tdc = (1.e-9 if tol['eps_c'] < 1.e-12 else 2.e-7) + 4. * (dsz + tol['z']) / max(1e-300, sum(c.distance))
         ok = abs(c.dircos - dc) <= tdc
         if not ok:
             return False, 'connection %r dircos %r (blocks %s), original %r' % (nm, float(d.dircos), 'same order' if same else 'reversed', float(c.dircos))
@@ -515,9 +516,9 @@ def tags(p):
     bc = p['bc']
     if bc.startswith('side'):
         bc += '/dir%d' % (2 if p['nx'] == 1 else (1 if p['ny'] == 1 else p['bc_dirn']))
-    return 'nx=%d ny=%d nz=%d single=%s atm=%d conv=%d rconv=%d surf=%s top=%s bc=%s aligned=%s angle=%.6g case=%d' % (
+    return 'nx=%d ny=%d nz=%d single=%s atm=%d conv=%d rconv=%d surf=%s top=%s onelayer=%s bc=%s aligned=%s angle=%.6g case=%d' % (
         p['nx'], p['ny'], p['nz'], two_d, p['atmos_type'], p['convention'], p['rectgeo_convention'], p['surface_mode'],
-        p['top'], bc, 'y' if p['aligned'] else 'n', p['angle'], p['case'])
+        p['top'], 'y' if p['onelayer'] else 'n', bc, 'y' if p['aligned'] else 'n', p['angle'], p['case'])
 
 
 def run_case(p):
@@ -536,7 +537,9 @@ def run_case(p):
     try:
         L = Layout(p)
         geo0 = build_geometry(p)
-        tmem = tolerances(L, 1.e-13, 1.e-13)
+        # in memory: rounding only - cancellation makes a spacing recovered from coordinates of size M uncertain by ulp(M)
+        ulp = 2.3e-16
+        tmem = tolerances(L, 1.e-13, 1.e-13 + 50. * ulp * max(L.maxabs_xy / min(p['dx'] + p['dy']), L.maxabs_z / min(p['dz'])))
         counts['forward'] += 1
         ok, what = contract_forward(L, geo0, tmem)
         if not ok: fail('forward-geometry', 'mem', what)
@@ -636,18 +639,23 @@ def main():
     def klass(f):
         i = f['input']
         return (f['key'].split(' ')[0], i.get('stage'), 'x' if i.get('nx') == 1 else ('y' if i.get('ny') == 1 else 'no'),
-                i.get('top'), i.get('bc'), i.get('atmos_type'), i.get('surface_mode') == 'thin')
+                i.get('top'), i.get('onelayer'), i.get('bc'), i.get('atmos_type'), i.get('surface_mode') == 'thin')
     size = lambda f: (f['input'].get('nx', 0) * f['input'].get('ny', 0) * f['input'].get('nz', 0), f['key'])
+    def plain(f):
+        # inputs without any of the stress features (single block in x, one-layer columns, truncated top, side boundary
+        # blocks) come first, so that a failure on an ordinary model is never crowded out of the 60 printed
+        i = f['input']
+        return not (i.get('nx') == 1 or i.get('onelayer') or i.get('top') != 'full' or str(i.get('bc')).startswith('side'))
     groups = {}
     for f in sorted(failures, key=size): groups.setdefault(klass(f), []).append(f)
     ordered, rank = [], 0
     while len(ordered) < len(failures):
-        for k in sorted(groups, key=lambda k: tuple(str(x) for x in k)):
+        for k in sorted(groups, key=lambda k: (not plain(groups[k][0]),) + tuple(str(x) for x in k)):
             if rank < len(groups[k]): ordered.append(groups[k][rank])
         rank += 1
     failures = ordered
     stages = dict((k[6:], counts.pop(k)) for k in list(counts) if k.startswith('stage:'))
-    out = {'evaluations': sum(counts.values()), 'stages': stages, 'distinct': len(distinct), 'failures': failures[:60],
+    out = {'evaluations': sum(counts.values()), 'stages': stages, 'distinct': len(distinct), 'failures': failures[:int(os.environ.get('C18_MAXFAIL', '60'))],
            'nfailures': len(failures), 'samples': samples, 'seconds': time.time() - t0, 'per_contract': counts,
            'failure_classes': len(groups)}
     print('@@JSON@@' + json.dumps(out))
